@@ -239,6 +239,12 @@ int run_walk_d(sg4::Engine& e)
   std::vector<simgrid::mc::TransitionPtr> exec;
   simgrid::mc::odpor::Execution E;
   if (mcinfo) {
+    signal(SIGALRM, [](int) {
+      const char m[] = "X 0 decode_blocked=1\n";
+      LOG.append(m, sizeof m - 1);
+      flush_log();
+      _exit(14);
+    });
     if (socketpair(AF_UNIX, SOCK_STREAM, 0, sk) != 0)
       return 5;
     appc = std::make_unique<simgrid::mc::Channel>(sk[0]);
@@ -325,12 +331,16 @@ int run_walk_d(sg4::Engine& e)
     a->simcall_handle(tc);
     if (mcinfo && a->simcall_.observer_) {
       std::string ob = a->simcall_.observer_->to_string();
+      // a decoder that expects more bytes than the observer serialised would block for ever on the socket
+      emit("S %ld %a decoding n=%ld ob=%s", SEQ++, now(), step, nospace(ob).c_str());
+      alarm(opts.count("decodealarm") ? atoi(opts["decodealarm"].c_str()) : 10);
       a->simcall_.observer_->serialize(*appc);
       a->get_memory_trace()->serialize(*appc);
       if (appc->send() != 0)
         return 5;
       auto* t = simgrid::mc::deserialize_transition((unsigned)a->get_pid(), tc, *chk);
       t->deserialize_memory_tracker(*chk);
+      alarm(0);
       exec.push_back(simgrid::mc::TransitionPtr(t));
       E.push_transition(exec.back());
       emit("T %ld aid=%ld tc=%d type=%s str=%s ob=%s", step, (long)t->aid_.value(), (int)t->times_considered_,
